@@ -64,10 +64,10 @@ type World struct {
 	// per policy instance counters for delay functions
 	delayCalls []int
 	// per execution state
-	fnCalls   []int // invocation counter per execution id
-	fnActive  []int // functions in progress per policy instance (bulkhead / breaker accounting)
-	cancels   []context.CancelFunc
-	results   []failsafe.ExecutionResult[R]
+	fnCalls       []int // invocation counter per execution id
+	fnActive      []int // functions in progress per policy instance (bulkhead / breaker accounting)
+	cancels       []context.CancelFunc
+	results       []failsafe.ExecutionResult[R]
 	inFlightByPol []int
 }
 
